@@ -1152,6 +1152,46 @@ class Gen:
                 {"k": "apply", "op": op, "op_id": j, "targets": [big + ".f", big + ".p"], "via": "ce", "ce": "CE0"},
                 {"k": "apply", "op": op, "op_id": j, "targets": [small + ".f", small + ".p"], "via": "ce", "ce": "CE0"}]
 
+    def same_alpha_prefix(self, v):
+        """scripted prefix: two modes are brought to the same cutoff and representation level, then displaced by the SAME
+        amplitude (one operation object, or two objects with equal parameters) - the less occupied mode first.  Anything
+        the library remembers about the first displacement (a cutoff, an operator) must not be used for the second."""
+        w = v["w"]
+        fs = []
+        for n in v["live"]:
+            if w.kind(n) == "F" and v["sn"].subs[n]["index"] is None:
+                nm, _ = self.support(v, n)
+                if nm is not None and nm <= 4:
+                    fs.append((n, nm))
+        if len(fs) < 2 or len(v["live"]) > 4 or any(w.kind(n) == "X" for n in v["live"]):
+            return []
+        fs.sort(key=lambda t: t[1])
+        (lo, nlo), (hi, nhi) = fs[0], fs[-1]
+        if nlo == nhi:
+            return []
+        D = max(nhi + 2, max(v["dims"].get(lo) or 0, v["dims"].get(hi) or 0))
+        if D > 7:
+            return []
+        pre = []
+        for f in (lo, hi):
+            pre.append({"k": "resize", "targets": [f], "n": int(D), "via": "state"})
+        for f in (lo, hi):
+            lvl = v["sn"].subs[f].get("level")
+            if lvl == "L":
+                pre.append({"k": "expand", "targets": [f], "via": "state"})
+        a = self.rng.uniform(0.4, 1.3) * self.unit_phase()
+        op = {"fam": "fock", "type": "Displace", "alpha": [float(a.real), float(a.imag)]}
+        seen = getattr(self, "ops_seen", None)
+        if seen is None:
+            seen = self.ops_seen = []
+        seen.append(op)
+        j = len(seen) - 1
+        st1 = {"k": "apply", "op": op, "op_id": j, "targets": [lo], "via": "state"}
+        st2 = {"k": "apply", "op": dict(op), "targets": [hi], "via": "state"}
+        if self.p(0.5):
+            st2["op"], st2["op_id"] = op, j
+        return pre + [st1, st2]
+
     def same_kind_prefix(self, v):
         """scripted prefix: a three-operand expression operation over three subsystems of one kind (three modes or
         three polarizations) of which one already shares a product space with a bystander while the other two are
@@ -1213,6 +1253,8 @@ class Gen:
                            {"k": "composite", "name": f"CE{n + 2}", "args": [b, f"CE{n + 1}"]}]
         elif not runner.records and self.opts.get("lifecycle") and self.p(self.opts["lifecycle"]):
             self.prefix = self.lifecycle_prefix(v)
+        elif not runner.records and self.opts.get("same_alpha") and self.p(self.opts["same_alpha"]):
+            self.prefix = self.same_alpha_prefix(v)
         elif not runner.records and self.opts.get("big_small") and self.p(self.opts["big_small"]):
             self.prefix = self.big_then_small_prefix(v)
         elif not runner.records and self.opts.get("refuse_first") and self.p(self.opts["refuse_first"]):
